@@ -57,7 +57,7 @@ theorem drop_unit (id : Nat) (p t : Bytes) : (id :: p.length :: (p ++ t)).drop (
   simp [List.drop_succ_cons]
 
 /-- the loop over an accepted region whose lines continue the frame: all lines stored, result 0 -/
-theorem extractLoop_lines : ∀ (us : List DataUnit) (ls : List Line) (f : Frame) (fuel : Nat),
+theorem extractLoop_stores : ∀ (us : List DataUnit) (ls : List Line) (f : Frame) (fuel : Nat),
     unitsLines us = some ls → AscFrom f.lastFrameLine ls → f.lines.length + ls.length ≤ 64 →
     (encUnits us).length < fuel →
     ∃ f', extractLoop fuel f (encUnits us) = (f', .done, []) ∧ f'.lines = f.lines ++ ls.map ofLine
@@ -229,7 +229,7 @@ theorem pesPacketFrame_first (se : Bool) (fs : FS) (us : List DataUnit) (l : Lin
   rw [pesPacketFrame]
   simp only [hnf, if_true]
   rw [extract_eq _ _ h2]
-  obtain ⟨f', h1, hl, hla⟩ := extractLoop_lines (u :: us') (l :: ls) (resetFrame fs.frame) _ hul
+  obtain ⟨f', h1, hl, hla⟩ := extractLoop_stores (u :: us') (l :: ls) (resetFrame fs.frame) _ hul
     (by simpa [resetFrame] using hasc) (by simpa [resetFrame] using hcap) (Nat.lt_succ_self _)
   rw [h1]
   exact ⟨_, rfl, ⟨rfl, by simpa [resetFrame] using hl, by simpa [resetFrame] using hla, rfl⟩, rfl⟩
@@ -260,7 +260,7 @@ theorem pesPacketFrame_next (se : Bool) (fs : FS) (us : List DataUnit) (l : Line
   rw [pesPacketFrame]
   simp only [if_true]
   rw [extract_eq _ _ h21]
-  obtain ⟨f', h3, hl, hla⟩ := extractLoop_lines (u1 :: us1') (l :: ls) (resetFrame f1) _ hul1
+  obtain ⟨f', h3, hl, hla⟩ := extractLoop_stores (u1 :: us1') (l :: ls) (resetFrame f1) _ hul1
     (by simpa [resetFrame] using hasc) (by simpa [resetFrame] using hcap) (Nat.lt_succ_self _)
   rw [h3]
   dsimp only
